@@ -11,7 +11,7 @@ git -C "$mr" fetch -q /repo HEAD 2>/dev/null && git -C "$mr" reset -q --hard FET
 if [ ! -d "$mv/.git" ]; then rm -rf "$mv"; git clone -q "$root" "$mv"; fi
 ( cd "$mv" && git fetch -q "$root" HEAD && git reset -q --hard FETCH_HEAD; mkdir -p work )
 sed -i "s|path = \"/repo\"|path = \"$mr\"|" "$mv/harness/Cargo.toml"
-git -C "$mr" apply "$patch" || { echo "patch does not apply"; exit 2; }
+git -C "$mr" apply "$patch" 2>/dev/null || git -C "$mr" apply -3 "$patch" || { echo "patch does not apply"; exit 2; }
 export VERIF_REPO=$mr
 for id in "$@"; do
   ( cd "$mv" && timeout 1800 tools/check "$id" quick > "$mv/work/mut_$id.log" 2>&1; echo "-- $id exit: $?" )
